@@ -374,8 +374,9 @@ export function evalExpr(e, env) {
         if (it.k === 'hole') n += 1
         else if (it.k === 'spread') {
           const v = evalExpr(it.e, env)
-          if (!Array.isArray(v)) throw new RefThrow('array spread of a non-array is outside the property')
-          for (let i = 0; i < v.length; i++) { if (i in v) out[n] = v[i]; n += 1 }
+          // (what JavaScript iterates: arrays - their holes read as undefined - and strings, by code point)
+          if (!Array.isArray(v) && typeof v !== 'string') throw new RefThrow('array spread of a value that is neither an array nor a string is outside the property')
+          for (const x of v) { out[n] = x; n += 1 }
         } else { out[n] = evalExpr(it.e, env); n += 1 }
       }
       out.length = n
@@ -486,7 +487,7 @@ export function genExpr(rng, depth, ctx) {
       for (let i = 0; i < n; i++) {
         const r = rng.int(10)
         if (r < 2) { items.push({ k: 'hole' }); while (rng.bool(0.35) && items.length < 6) items.push({ k: 'hole' }) } // runs of holes
-        else if (r < 4) items.push({ k: 'spread', e: rng.bool(0.7) ? id(rng.pick(ctx.arrays || ['arr'])) : arr([{ k: 'v', e: sub() }]) })
+        else if (r < 4) items.push({ k: 'spread', e: rng.bool(0.6) ? id(rng.pick(ctx.arrays || ['arr'])) : rng.bool(0.3) ? str(rng.pick(['ab', '', '\u{1F600}x', 'a b'])) : arr(rng.bool(0.4) ? [{ k: 'hole' }, { k: 'v', e: sub() }, { k: 'hole' }, { k: 'v', e: sub() }] : [{ k: 'v', e: sub() }]) })
         else items.push({ k: 'v', e: sub() })
       }
       return arr(items)
@@ -521,6 +522,7 @@ export function* enumDepth2(leafOf) {
   forms.push({ n: 2, mk: (xs) => call(xs[0], [xs[1]]), tag: '()' })
   forms.push({ n: 2, mk: (xs) => arr([{ k: 'v', e: xs[0] }, { k: 'hole' }, { k: 'v', e: xs[1] }]), tag: '[,]' })
   forms.push({ n: 2, mk: (xs) => arr([{ k: 'hole' }, { k: 'spread', e: arr([{ k: 'v', e: xs[0] }]) }, { k: 'v', e: xs[1] }]), tag: '[...]' })
+  forms.push({ n: 2, mk: (xs) => arr([{ k: 'spread', e: xs[0] }, { k: 'spread', e: arr([{ k: 'hole' }, { k: 'v', e: xs[1] }]) }]), tag: '[...x]' })
   forms.push({ n: 2, mk: (xs) => arr([{ k: 'hole' }, { k: 'hole' }, { k: 'v', e: xs[0] }, { k: 'hole' }, { k: 'hole' }, { k: 'hole' }, { k: 'v', e: xs[1] }, { k: 'hole' }]), tag: '[,,]' })
   forms.push({ n: 2, mk: (xs) => obj([{ k: 'kv', name: 'x', e: xs[0] }, { k: 'spread', e: obj([{ k: 'kv', name: 'y', e: xs[1] }]) }]), tag: '{...}' })
   let k = 0
